@@ -22,7 +22,7 @@ from ..core import Result, HarnessBug
 
 ID = "C13"
 LEVEL = "exploration"
-BUDGET = {"quick": 300, "thorough": 30000}
+BUDGET = {"quick": 300, "thorough": 90000}
 WORKERS = {"quick": 4, "thorough": 8}
 CONFIRM = (1, 20)
 RECYCLE = 300          # the executor leaves after 400 cases; start a fresh one before that
